@@ -253,31 +253,46 @@ class Enc:
 
     def validate(self, rng, npoints=2, tol=2e-3, bounds=None):
         """translator validation: encoded outputs evaluated at concrete points must agree with
-        the real function.  Returns the number of points compared; raises Inconclusive on a
-        mismatch (harness error)."""
-        done = 0
-        for _ in range(npoints):
-            env = {}
-            if bounds:
-                for nm, (lo, hi) in bounds.items():
-                    env[nm] = float(rng.uniform(lo, hi))
-            cargs = self.concrete_args(env, rng=rng)
-            V = self.replay_view(env, cargs, tag="v")
-            ze = ZEval(env, tol=tol)
-            for real_leaf, sym_leaf in zip(jax.tree_util.tree_leaves(V.out), jax.tree_util.tree_leaves(self.out)):
-                for rc, sc in zip(cells(real_leaf), cells(sym_leaf)):
-                    if not z3.is_expr(sc) or not z3.is_expr(rc):
-                        continue
-                    try:
-                        rv, sv = ze(rc), ze(sc)
-                    except NoValue:
-                        continue
-                    if isinstance(rv, float) and (np.isnan(rv) or np.isinf(rv)):
-                        continue
-                    if not ze.close(rv, sv):
-                        raise Inconclusive(f"translator validation mismatch in {self.name}: real {rv} vs encoded {sv} for {str(sc)[:120]}")
+        the real function.  Returns the number of points compared; raises Inconclusive when the
+        encoding disagrees with the real code at two or more points (a single disagreeing point is
+        re-tried at two further points: near-singular random points are not translator bugs)."""
+        done, bad = 0, []
+        budget = npoints
+        while budget > 0:
+            budget -= 1
+            msg = self._validate_point(rng, tol, bounds)
             done += 1
+            if msg:
+                bad.append(msg)
+                if len(bad) == 1:
+                    budget += 2
+            if len(bad) >= 2:
+                raise Inconclusive(bad[0])
         return done
+
+    def _validate_point(self, rng, tol, bounds):
+        env = {}
+        if bounds:
+            for nm, (lo, hi) in bounds.items():
+                env[nm] = float(rng.uniform(lo, hi))
+        cargs = self.concrete_args(env, rng=rng)
+        V = self.replay_view(env, cargs, tag="v")
+        ze = ZEval(env, tol=tol)
+        for real_leaf, sym_leaf in zip(jax.tree_util.tree_leaves(V.out), jax.tree_util.tree_leaves(self.out)):
+            for rc, sc in zip(cells(real_leaf), cells(sym_leaf)):
+                if not z3.is_expr(sc) or not z3.is_expr(rc):
+                    continue
+                try:
+                    rv, sv = ze(rc), ze(sc)
+                except NoValue:
+                    continue
+                if isinstance(rv, float) and (np.isnan(rv) or np.isinf(rv)):
+                    continue
+                if isinstance(sv, float) and (np.isnan(sv) or np.isinf(sv)):
+                    continue
+                if not ze.close(rv, sv):
+                    return f"translator validation mismatch in {self.name}: real {rv} vs encoded {sv} for {str(sc)[:120]}"
+        return None
 
 
 def _py(x):
